@@ -110,6 +110,10 @@ func bucket(n int) string {
 }
 
 func main() {
+	if os.Getenv("C11_RACE_CHILD") != "" {
+		raceChildMain()
+		return
+	}
 	f := lib.ParseFlags()
 	res := lib.NewResult(rule)
 	deadline := 1500 * time.Millisecond
@@ -261,6 +265,14 @@ func main() {
 			fmt.Fprintln(os.Stderr, "replay: no scenario in", f.Replay, err)
 			os.Exit(3)
 		}
+		if st := rp.Case.Scenario.Steps; len(st) == 1 && st[0].Op == "vrace" && st[0].Race != nil {
+			// a race is re-executed until it shows again (it is a race), at least 10 times
+			sp := *st[0].Race
+			sp.Trials = max(sp.Trials, 10)
+			runRaces([]RaceSpec{sp}, res)
+			res.Write(f.Out)
+			return
+		}
 		if st := rp.Case.Scenario.Steps; len(st) == 1 && st[0].Op == "stress" {
 			fs, got := Stress(st[0].N, st[0].Chans, 60*time.Second)
 			res.Count("stress-replay", got > 0)
@@ -275,9 +287,16 @@ func main() {
 		return
 	}
 
+	if os.Getenv("C11_ONLY") == "race" { // development aid: the race family alone
+		runRaces(raceSpecs(f.Tier, f.Seed, f.Search), res)
+		res.Write(f.Out)
+		return
+	}
 	for _, sc := range families() {
 		runOne(sc, 0)
 	}
+	// variadic Subscribe racing Close / cancel at forced points (monitors only; race.go)
+	runRaces(raceSpecs(f.Tier, f.Seed, f.Search), res)
 	// exhaustive small scope: every join-after-leave sequence over 3 subscriber slots
 	churnLen := 7
 	if f.Tier == "thorough" {
